@@ -2,10 +2,16 @@
 SPECIFICATION FairSpec
 CONSTANTS
   Guard = "AsRequired"
-  Classes <- UpTo1
+  Cmp = "id"
+  Setups <- SetsOne
+  Blocks <- BlocksUpTo1
+  Seconds <- NoSeconds
   MaxRound = 1
   MaxRestarts = 2
   Sched = "fixed"
+  ByzVotes = "support"
+  Loss = "none"
+  Serve = "prefix"
 INVARIANTS TypeOK
 PROPERTIES ChainContinues
 VIEW View
